@@ -175,7 +175,15 @@ def expand_calls(env, path, value_fn="serialize_value", depth=0, stack=()):
         if t[0] == "call" and not t[1].endswith(value_fn) and depth < 3 and t[1] not in stack:
             cb = body_by_pretty(prog, t[1])
             if cb is not None:
-                ex = grammar.emitted(env, cb.key)
+                ex = grammar.Extractor(env, cb.key, "w", None, None)
+                # small loop-free helpers of the helper are followed in place, so a length computed by one helper and written by
+                # another keeps its provenance
+                ex.inline = True
+                ex.inline_depth = 3
+                ex.inline_pred = lambda cb2, t2: not cb2.pretty.endswith(value_fn)
+                ex.run()
+                followed = {env.prog.bodies[k].pretty for k in ex.entered}
+                ex.paths = [tuple(x for x in p if not (x[0] == "call" and x[1] in followed)) for p in ex.paths]
                 subs = []
                 for sp in grammar.ok_paths(ex):
                     inner = [x for x in sp if x[0] not in ("end", "returns", "final", "probe")]
@@ -216,9 +224,20 @@ def variant_encoders(env, rep, rule):
         E = base.copy() if base is not None else State()
         pv = ("ld", (("L", vparam, sv.key), ()), "entry")
         E.doms[("discr", ("ld", (("P", pv), ()), "entry"))] = Dom(vi, vi)
-        ex = grammar.Extractor(env, sv.key, "w", E, None).run()
+        ex = grammar.Extractor(env, sv.key, "w", E, None)
+        ex.inline = True
+        ex.inline_depth = 3
+        ex.inline_pred = lambda cb2, t2: not cb2.pretty.endswith("serialize_value")
+        ex.run()
+        followed = {prog.bodies[k].pretty for k in ex.entered}
         paths = []
         span_body = sv
+        for k in sorted(ex.entered):
+            if prog.bodies[k].kind != "closure":
+                span_body = prog.bodies[k]
+                rep.fn(k)
+                break
+        ex.paths = [tuple(x for x in p if not (x[0] == "call" and x[1] in followed)) for p in ex.paths]
         for p in grammar.ok_paths(ex):
             inner = [x for x in p if x[0] not in ("end", "final", "probe")]
             calls = [t for t in inner if t[0] == "call" and not t[1].endswith("serialize_value")]
